@@ -160,11 +160,28 @@ def check(ctx):
                 if a2[0] == "call" and a2[4] in access_sites and a2 is not c:
                     if not callee_is(c, "Option::copied", "Option::cloned"):
                         consumers.setdefault(a2[4], set()).add((c[1], c[4]))
-    ctx.floor("R06.2", len(access_sites), 4, "Lexicase slice accesses (split_first, 2x get, first)")
+    ctx.floor("R06.2", len(access_sites), 2, "Lexicase slice accesses (get of the two compared results; split_first / first unless spelled as slice patterns)")
+    def matched_to_error(c):
+        """the access is consumed by a `match`: its None arm returns Err(<the documented error for this access>), never continues"""
+        want = "MissingTestCase" if callee_is(c, "[T]::get") else "EmptyPopulation"
+        seen_none = False
+        for p in ctx.paths(fn):
+            if c not in p.calls():
+                continue
+            d = [x for x in p.conds if x[0] == ("discr", c)]
+            if not d:
+                return False
+            if d[0][1] == 0:
+                seen_none = True
+                if not (p.end == "return" and is_err_return(p) and want in err_adts(p.ret)):
+                    return False
+        return seen_none
     for site, c in sorted(access_sites.items()):
         cons = consumers.get(site, set())
         names = sorted({n for n, _ in cons})
         ok = bool(cons) and all(path_ends(n, "Option::ok_or") or path_ends(n, "Option::ok_or_else") for n in names)
+        if not cons and matched_to_error(c):
+            ok, names = True, ["match .. { None => return Err(documented error) }"]
         ctx.check(ok, "R06.2", "Lexicase/%s/bb%d->ok_or" % (short(c, 1).split("(")[0], site[1]),
                   "consumed by " + ", ".join(short_n(n) for n in names), fn.at(),
                   bad_detail="the Option returned by %s is consumed by %s, not by ok_or(<documented error>)" % (short(c, 2), names or "nothing"))
